@@ -107,6 +107,7 @@ func VerifHarness_FrameOther(kind uint64) {
 	}
 	verifAssert(rec.count("JP") == 0, "C05: only message calls that run a contract's own code fire join points")
 	verifAssert(tr.callTree.count == treeCount && tr.callTree.current == cursor, "C07: only CALL and CREATE are recorded in the call tree")
+	verifAssert(tr.callTree.current == cursor && evm.depth == int(depth), "C03: cursor and depth are back to rest on every exit of the frame")
 	if ran == 1 {
 		verifReach("ran")
 		switch kind {
@@ -220,6 +221,7 @@ func VerifHarness_FrameCreate() {
 	verifAssert(tr.CurrentCallIndex() == stampBefore, "C10: after the creation returns, entries are attributed to the issuing frame again")
 	ct := tr.CallTree()
 	verifAssert(ct.count == expectedIndex+1 && ct.Current() == cursor, "C07: one node per creation attempt, cursor restored")
+	verifAssert(ct.Current() == cursor && evm.depth == int(depth), "C03: cursor and depth are back to rest on every exit of the frame")
 	node := ct.FindCall(expectedIndex)
 	verifAssert(node != nil && node.Index == expectedIndex && node.Parent == cursor, "C07: node linked under the issuing frame")
 	verifAssert(node.From == callerAddr && node.To == nil, "C08: creator recorded, no target")
